@@ -1,14 +1,14 @@
 #!/bin/bash
-# usage: save_mutant2.sh <Cxx> <A|B> <C|D> "<caught_by text>" "<verify cmd text>"   (round 2: /tmp/mut/out2-<id>/<A|B> -> seeded/<id>-<C|D>)
+# usage: save_mutant2.sh <Cxx> <A|B> <C|D> "<caught_by text>" "<verify cmd text>"   (round 2: /tmp/mut/${OUTP:-out2}-<id>/<A|B> -> seeded/<id>-<C|D>)
 id=$1; v=$2; w=$3; d=/verif/seeded/$id-$w; mkdir -p $d
-cp /tmp/mut/out2-$id/$v/patch.diff /tmp/mut/out2-$id/$v/DEMO.md $d/ 2>/dev/null
-cp /tmp/mut/out2-$id/$v/demo_test.go $d/ 2>/dev/null
+cp /tmp/mut/${OUTP:-out2}-$id/$v/patch.diff /tmp/mut/${OUTP:-out2}-$id/$v/DEMO.md $d/ 2>/dev/null
+cp /tmp/mut/${OUTP:-out2}-$id/$v/demo_test.go $d/ 2>/dev/null
 python3 - "$id" "$v" "$d" "$4" "$5" <<'PY'
 import json,sys
 id,v,d,caught,ver=sys.argv[1:6]
-try: meta=json.load(open(f'/tmp/mut/out2-{id}/{v}/meta.json'))
+try: meta=json.load(open(f'/tmp/mut/${OUTP:-out2}-{id}/{v}/meta.json'))
 except Exception: meta={"property":id}
-meta['round']=2
+meta['round']=int(__import__('os').environ.get('ROUND','2'))
 meta['verified_by_me']={"commands":[ver,"tools/try_mutant.sh patch.diff "+id+" (git -C /repo apply; ./check; git -C /repo checkout -- .)"]}
 meta['caught_by']=caught
 json.dump(meta,open(d+'/meta.json','w'),indent=1)
